@@ -37,7 +37,7 @@ def required_cells(tier):
     return {"env:ancilla": 6, "env:pttempo": 2, "nenv:1": 3, "nenv:2": 3,
             "nenv:3": 1, "M:1": 1, "M:2": 1, "M:3": 1, "N:1": 1,
             "dissipator:param": 3, "deriv:user": 2, "deriv:numeric": 3,
-            "target:callable": 2, "target:array": 3, "history:two-dt": 1, "params:structured": 3, "lastbond:closed": 2, "lastbond:cap": 2,
+            "target:callable": 2, "target:array": 3, "callables-return-stored-arrays": 4, "initial-matrix:non-hermitian": 2, "history:two-dt": 1, "params:structured": 3, "lastbond:closed": 2, "lastbond:cap": 2,
             "gradient_entries_compared": 100}
 
 
@@ -103,11 +103,31 @@ class Model:
             return out
         return pderivs
 
-    def system(self, user):
+    def system(self, user, stored_arrays=False):
+        """stored_arrays: the Hamiltonian pieces and the jump operator handed
+        to the library are arrays the caller keeps (the callables return the
+        SAME complex array object at every call where they can); kept in
+        self.user_arrays so that the caller can see whether they were
+        written to."""
         import oqupy
+        lop, h = self.lop, self.h
+        self.user_arrays = []
+        if stored_arrays:
+            a0u = np.array(self.a0, dtype=complex)
+            h0u = np.array(self.h0, dtype=complex)
+            self.user_arrays = [(a0u, a0u.copy()), (h0u, h0u.copy())]
+            if not self.param_diss:
+                def lop(*p):
+                    return a0u
+
+            def h(*p):
+                out = h0u
+                for k, x in enumerate(p):
+                    out = out + x * self.hk[k]
+                return out
         return oqupy.ParameterizedSystem(
-            self.fixed_arity(self.h), [self.fixed_arity(self.gamma)],
-            [self.fixed_arity(self.lop)],
+            self.fixed_arity(h), [self.fixed_arity(self.gamma)],
+            [self.fixed_arity(lop)],
             propagator_derivatives=self.user_derivs() if user else None)
 
 
@@ -193,6 +213,12 @@ def run_ancilla(case):
     else:
         pts = [ancilla.build_process_tensor(e, nsteps, dt=dt) for e in envs]
     rho0 = gen.rand_state(rng, d)
+    # the relation is linear algebra: it holds for any initial matrix, also
+    # one that is no density matrix (holomorphic objective then)
+    general_rho0 = bool(callable_target and i % 6 == 5)
+    if general_rho0:
+        rho0 = gen.cplx(rng, (d, d), 0.5)
+        rho0 = rho0 / np.trace(rho0)
     params = rng.normal(size=(2 * nsteps, m)) * 0.7
     # structured tables: some controls held constant over a full step (both
     # halves equal) while others vary per half step; some steps fully constant
@@ -211,7 +237,16 @@ def run_ancilla(case):
                     expm(model.liou(*p[2 * k + 1]) * dt_ / 2))
         return ancilla.dense_dynamics(d, envs_, rho0, n, hp)
 
-    if callable_target:
+    if callable_target and general_rho0:
+        amat, bmat = gen.cplx(rng, (d, d)), gen.cplx(rng, (d, d))
+
+        def zval(rho):
+            return np.trace(amat @ rho) ** 2 + np.trace(bmat @ rho)
+
+        def tderiv(rho):
+            return 2 * np.trace(amat @ rho) * amat.T + bmat.T
+        tgt = tderiv
+    elif callable_target:
         def zval(rho):
             return np.real(np.trace(sig1 @ rho)) ** 2 \
                 + np.real(np.trace(sig2 @ rho))
@@ -224,8 +259,13 @@ def run_ancilla(case):
             return np.dot(target.reshape(-1), rho.reshape(-1))
         tgt = target.copy()
     zfun = lambda p: zval(forward(p)[-1])
-    system = model.system(user)
+    stored = bool(i % 4 in (0, 3))
+    system = model.system(user, stored_arrays=stored)
     violations, cells, monitors = [], [], {}
+    if stored:
+        cells.append("callables-return-stored-arrays")
+    if general_rho0:
+        cells.append("initial-matrix:non-hermitian")
     if history:
         # use the same system object first with another time step
         dt0 = dt * 2
@@ -238,6 +278,13 @@ def run_ancilla(case):
         cells.append("history:two-dt")
     res = oqupy.state_gradient(system, rho0, tgt, pts, params.copy(),
                                progress_type="silent")
+    for arr, orig in model.user_arrays:
+        if not np.array_equal(arr, orig):
+            violations.append({
+                "what": "an array returned by the caller's Hamiltonian / "
+                        "Lindblad callable was written to by the library "
+                        f"(changed by {np.abs(arr - orig).max():.3e})",
+                "mechanism": "caller-array-modified", "detail": {}})
     fd = fd_gradient(zfun, params, 1e-5)
     fd2 = fd_gradient(zfun, params, 2e-5)
     rel, scale, fd_err = judge(res, fd, fd2, forward(params), violations,
